@@ -87,6 +87,9 @@ func main() {
 		w.Flush()
 		os.Exit(code)
 	case "one":
+		if os.Getenv("GOMAXPROCS") == "" {
+			runtime.GOMAXPROCS(1) // like the workers
+		}
 		p := harness.Lookup(*prop)
 		if p == nil {
 			os.Exit(2)
